@@ -88,6 +88,12 @@ CHECKS = {
         design='DESIGN.md 5 C15',
         technique='direct SMT encoding of the kernel from its Python AST (z3, linear integer arithmetic) + bounded exhaustive execution of the real _import_proof with nondeterministic set iteration order',
     ),
+    'C18': dict(
+        text='Selected repo modules (proof, interpreters, counting/optimising interpreters, Metamath converter and translator) are loaded from their current source through an AST rewrite that routes every iteration site over a set/frozenset through a hook; the hook picks the iteration order by forking (all n! orders for <= 4 elements at up to two deviating iteration events per run; globally consistent re-orderings - reversed, three pseudo-hash orders - for generated small theories). The six output streams must equal those under the natural order on every path. "What was serialised before" is enumerated exhaustively over a menu (incl. two modules with the same theory and different proofs) with up to two earlier serialisations, each sequence in a fresh child process, compared with the target serialised alone.',
+        note='Trusted: the rewrite (iteration sites: for, comprehensions, list/tuple/sorted/min/max/enumerate/zip/iter/join arguments), Python dict order being insertion order. Not a solver query: bounded exhaustive exploration of orders with the symx engine; no sampling of hash seeds. Bounds: <= 2 deviating iteration events; sets > 4 elements in three orders; histories <= 2 over a 4-module menu.',
+        design='DESIGN.md 5 C18',
+        technique='bounded exhaustive exploration (symx forking) of set iteration orders injected by an import-time AST rewrite; exhaustive history enumeration in fresh processes',
+    ),
     'C19': dict(
         text='For every live notation (read from the imported modules at run time, incl. forall/sorted_exists/kore_exists/nary_app instances) and every argument its definition depends on, z3 (theory of strings) is asked for two argument tuples that differ only in that argument and render to the same text through the notation\'s format string; unsat = the rendering shows the argument. Counterexamples are replayed through the real Notation.print_instantiation. The real Instantiate.pretty is run on all pairs of applications differing in one argument with one shared options object, and pretty steps are compared one by one with the decoded binary instructions for generated call sequences and the shipped modules (both optimise settings).',
         note='Trusted: z3 sequence theory, string.Formatter().parse, my instruction-boundary decoder. The pairs/steps parts use concrete small ids (bounded enumeration replayed on the real code); the string obligations are the solver-decided part.',
@@ -97,7 +103,6 @@ CHECKS = {
 }
 
 NOT_YET = {
-    'C18': 'check under construction in this session; not claimed until it runs',
 }
 
 NA = {
